@@ -381,15 +381,18 @@ SetContraction ==
 NewComposite ==
   /\ On("composite") /\ Depth /\ Act("newcomposite")
   /\ \E F \in Pick(SUBSET {m \in Members : cid[m] = 0 /\ \A i \in SubsOfMem(m) : alive[i]}) :
-     \E G \in Pick(SUBSET (1..ncomp \cap {cid[m] : m \in Members})) :
+     \* the merged composites in the order in which their handles are passed (the order is the caller's choice)
+     \E Gs \in Pick(LET cands == 1..ncomp \cap {cid[m] : m \in Members}
+                    IN UNION {Arr(cands, n) : n \in 0..Cardinality(cands)}) :
      \E dup \in Pick(BOOLEAN) :      \* dup: every handle of a merged composite (and one of its envelopes) is passed
+       LET G == Range(Gs) IN
        /\ F \cup G # {}
        /\ dup => G # {}
        /\ Cardinality(F) + Cardinality(G) <= 3
        /\ ncomp' = ncomp + 1
        /\ cid' = [m \in Members |-> IF m \in F \/ cid[m] \in G THEN ncomp + 1 ELSE cid[m]]
        /\ UNCHANGED <<ens, alive, blk, bkind, contr, known>>
-       /\ Log([a |-> "newcomposite", en |-> "ce", f |-> SortSet(F), gc |-> SortSet(G), dup |-> dup, rej |-> FALSE])
+       /\ Log([a |-> "newcomposite", en |-> "ce", f |-> SortSet(F), gc |-> Gs, dup |-> dup, rej |-> FALSE])
 
 (***************************************************************************)
 (* Fock cutoff                                                             *)
@@ -408,13 +411,28 @@ Resize ==
 (***************************************************************************)
 InvalidKinds == {"measure_with_destroyed", "kraus_incomplete", "kraus_wrongsize", "povm_wrongsize", "op_wrongkind",
                  "op_outside", "ann_vacuum", "use_destroyed_op", "use_destroyed_measure",
-                 "use_destroyed_kraus", "use_destroyed_povm", "custom_wrongsize"}
+                 "use_destroyed_kraus", "use_destroyed_povm", "custom_wrongsize",
+                 "kraus_rect", "povm_rect",
+                 "outside_op", "outside_kraus", "outside_measure", "outside_povm"}
+\* a single live subsystem i named at a container (the composite of j / the envelope of j) that it does not belong to
+OutsideCases(kind) ==
+  {<<kind, "ce", <<i, j>>>> : i \in {k \in Subs : alive[k]},
+                              j \in {k \in Subs : alive[k] /\ cid[Mem(k)] > 0}}
+  \cup {<<kind, "env", <<i, j>>>> : i \in {k \in Subs : alive[k]},
+                                    j \in {k \in Subs : alive[k] /\ HasPartner(k) /\ alive[Partner(k)]}}
+OutsideOK(x) == LET i == x[3][1]  j == x[3][2] IN
+                IF x[2] = "ce" THEN cid[Mem(i)] # cid[Mem(j)] ELSE Mem(i) # Mem(j)
 PerEntry(kind, ents, P(_, _)) == UNION {{<<kind, en, <<i>>>> : i \in {j \in Subs : P(en, j)}} : en \in ents}
 DeadEntryOK(en, j) == ~alive[j] /\ (en = "env" => HasPartner(j)) /\ (en = "ce" => cid[Mem(j)] > 0)
 InvalidCases ==
   PerEntry("kraus_incomplete", Entries, LAMBDA en, j : alive[j] /\ Dim[j] = 2 /\ EntryOK(en, j))
   \cup PerEntry("kraus_wrongsize", Entries, LAMBDA en, j : alive[j] /\ DimKnown(j) /\ EntryOK(en, j))
   \cup PerEntry("povm_wrongsize", Entries, LAMBDA en, j : alive[j] /\ DimKnown(j) /\ EntryOK(en, j))
+  \* rectangular operators (one row short): sum K^dagger K can still be the identity, the size is wrong all the same
+  \cup PerEntry("kraus_rect", Entries, LAMBDA en, j : alive[j] /\ DimKnown(j) /\ EntryOK(en, j))
+  \cup PerEntry("povm_rect", Entries, LAMBDA en, j : alive[j] /\ DimKnown(j) /\ EntryOK(en, j))
+  \cup OutsideCases("outside_op") \cup OutsideCases("outside_kraus")
+  \cup OutsideCases("outside_measure") \cup OutsideCases("outside_povm")
   \cup PerEntry("custom_wrongsize", Entries, LAMBDA en, j : alive[j] /\ Kind[j] # "F" /\ EntryOK(en, j))
   \cup PerEntry("op_wrongkind", {"env", "ce"}, LAMBDA en, j : alive[j] /\ EntryOK(en, j))
   \cup {<<"op_outside", "ce", <<i, j>>>> : i \in {k \in Subs : alive[k] /\ Kind[k] = "P" /\ cid[Mem(k)] > 0},
@@ -432,16 +450,20 @@ Invalid ==
   /\ On("invalid") /\ Depth /\ Act("invalid")
   /\ \E cs \in Pick({x \in InvalidCases : x[1] = "op_outside" =>
                         (x[3][1] # x[3][2] /\ cid[Mem(x[3][1])] # cid[Mem(x[3][2])])
-                     /\ (x[1] = "measure_with_destroyed" => cid[Mem(x[3][1])] = cid[Mem(x[3][2])])}) :
+                     /\ (x[1] = "measure_with_destroyed" => cid[Mem(x[3][1])] = cid[Mem(x[3][2])])
+                     /\ (x[1] \in {"outside_op", "outside_kraus", "outside_measure", "outside_povm"} => OutsideOK(x))
+                     /\ (x[1] \in {"outside_kraus", "outside_povm"} => DimKnown(x[3][1]))}) :
        /\ UNCHANGED <<ens, alive, blk, bkind, cid, ncomp, contr, known>>
        /\ Log([a |-> "invalid", en |-> cs[2], g |-> cs[1], t |-> cs[3], rej |-> TRUE])
 
 (* ------------------------------------------------------------------------ *)
 Init ==
+  /\ script \in Scripts
   /\ \E lv \in InitLevels :
         /\ ens = <<BasisKet(lv)>>
+        \* (sc: the script this behaviour follows, so that the harness can tell which scripts were completed)
         /\ hist = << [a |-> "init", en |-> "init", lv |-> lv, u |-> [dim |-> Dim, kind |-> Kind, env |-> EnvIdx], rej |-> FALSE, post |-> <<BasisKet(lv)>>,
-                      al |-> [i \in Subs |-> TRUE], pb |-> [i \in Subs |-> i], pk |-> [i \in Subs |-> "own"]] >>
+                      al |-> [i \in Subs |-> TRUE], pb |-> [i \in Subs |-> i], pk |-> [i \in Subs |-> "own"], sc |-> script] >>
   /\ alive = [i \in Subs |-> TRUE]
   /\ blk = [i \in Subs |-> i]
   /\ bkind = [i \in Subs |-> "own"]
@@ -449,7 +471,6 @@ Init ==
   /\ ncomp = 0
   /\ contr = TRUE
   /\ known = [i \in Subs |-> FALSE]
-  /\ script \in Scripts
   /\ free = MaxDepth
 
 Next ==
